@@ -109,6 +109,7 @@ type CertSpec struct {
 	OCSP       []string `json:"ocsp,omitempty"`
 	OCSPSigner bool     `json:"ocspsigner,omitempty"` // EKU OCSPSigning
 	ForceSKI   bool     `json:"ski,omitempty"`        // subjectKeyIdentifier also on a non-CA certificate
+	SKIHex     string   `json:"ski_hex,omitempty"`    // explicit subjectKeyIdentifier (overrides the computed one)
 	NoEKU      bool     `json:"noeku,omitempty"`
 }
 
@@ -197,6 +198,13 @@ func Issue(spec CertSpec, parent *Cert) *Cert {
 		}
 		h := sha1.Sum(pub)
 		tpl.SubjectKeyId = h[:]
+	}
+	if spec.SKIHex != "" {
+		b, err := hex.DecodeString(spec.SKIHex)
+		if err != nil {
+			panic(err)
+		}
+		tpl.SubjectKeyId = b
 	}
 	if spec.OCSPSigner {
 		tpl.ExtKeyUsage = []x509.ExtKeyUsage{x509.ExtKeyUsageOCSPSigning}
